@@ -40,6 +40,9 @@ func QualName(fn *ssa.Function) string { return pkgShort(fn) + "." + FuncName(fn
 
 // Verify dispatches on the contract: closure families or plain functions.
 func (x *Exec) Verify(fn *ssa.Function) *FuncReport {
+	if sp := x.specFor(fn); sp != nil && isMethodTable(sp) {
+		return x.VerifyMethodTable(fn)
+	}
 	if sp := x.specFor(fn); sp != nil && len(sp.Of("closure")) > 0 {
 		return x.VerifyFamily(fn)
 	}
